@@ -292,6 +292,39 @@ func twinCorpus() []CorpusReq {
 		out = append(out, CorpusReq{Name: fmt.Sprintf("electre/on-the-cut-%d", vi), Req: r, Valid: true, Always: true})
 		out = append(out, CorpusReq{Name: fmt.Sprintf("electre/on-the-cut-%d/omission", vi), Req: withBiases(r, []M{biasAlphabet(0)[0]}), Valid: true, Always: vi == 0})
 	}
+	// the activation seed left out / given as 0 with fractional probabilities (whatever a missing seed defaults to, it is
+	// a function of the request), and requests with 50 known alternatives under every bias that looks at all of them
+	for _, seedForm := range []string{"omitted", "zero"} {
+		r := withBiases(rootRequest("weightedSum", true, false), []M{
+			{"name": "criteriaOmission", "applyProbability": 0.5, "props": M{"ratio": 0.34}},
+			{"name": "fatigue", "applyProbability": 0.5, "props": M{"function": "const", "params": M{"value": 0.25}, "randomSeed": 2}},
+			{"name": "preferenceReversal", "applyProbability": 0.9, "props": M{"ratio": 0.34}}})
+		delete(r, "biasApplyRandomSeed")
+		if seedForm == "zero" {
+			r["biasApplyRandomSeed"] = 0
+		}
+		out = append(out, CorpusReq{Name: "activation/seed-" + seedForm, Req: r, Valid: true, Always: true})
+	}
+	{
+		n := 50
+		ids := make([]string, n)
+		vals := make([][]float64, n)
+		for i := range ids {
+			ids[i] = fmt.Sprintf("k%02d", i)
+			vals[i] = []float64{float64(i%7) + 1, float64((i*3)%5) + 1, float64((i*5)%11) + 1}
+		}
+		big := genericRequest("weightedSum", critIDs(3), 1, ids, vals, []string{"k07", "k03", "k41", "k20", "k11"}, []float64{1, 2, 3})
+		big["biasApplyRandomSeed"] = 1
+		anch := func(ap M) M {
+			return bias("anchoring", M{"anchoringAlternatives": L{M{"alternative": "k03", "coefficient": 1.0}, M{"alternative": "k41", "coefficient": 0.5}},
+				"referencePoints": M{"function": "ideal"}, "gain": M{"function": "linear", "params": M{"a": 0.5, "b": 0.0}}, "loss": M{"function": "linear", "params": M{"a": 1.0, "b": 0.0}}, "applier": ap})
+		}
+		out = append(out, CorpusReq{Name: "fifty-known/anchoring-inline-all", Req: withBiases(big, []M{anch(M{"function": "inline", "params": M{"applyOnNotConsidered": true}})}), Valid: true, Always: true})
+		out = append(out, CorpusReq{Name: "fifty-known/anchoring-newCriterion", Req: withBiases(big, []M{anch(M{"function": "newCriterion", "params": M{"randomSeed": 6}})}), Valid: true})
+		core50 := biasAlphabet(0)
+		out = append(out, CorpusReq{Name: "fifty-known/fatigue", Req: withBiases(big, []M{core50[2]}), Valid: true})
+		out = append(out, CorpusReq{Name: "fifty-known/concealment>reversal", Req: withBiases(big, []M{core50[4], core50[1]}), Valid: true})
+	}
 	// one bias kind applied twice in one request with the same seed (second generated id, second stream)
 	core0 := biasAlphabet(0)
 	for _, m := range []string{"weightedSum", "satisfactionHeuristic"} {
